@@ -218,4 +218,19 @@ rewrite /solves /= (nth_map [::]) // /osize /= dense_perm_mul //; last by rewrit
 by rewrite perm_solve_correct.
 Qed.
 
+(* ... and with a left factor (Solve.forward: solve [L^T | B], slice, multiply) *)
+Theorem alg_solve_sound_perm_left (s : settings) (p : seq nat) (B Y : cols F) k (L : mat F) :
+  uniq p -> all (fun x => (x < size p)%N) p -> all (fun b => size b == size p) B ->
+  fast_solves s -> (max_cholesky_size s < size p)%N ->
+  alg_solve RA s (DPerm F p) B (Some (k, L)) = Some Y ->
+  exists X, [/\ size X = size B, forall j, (j < size B)%N -> solves (DPerm F p) (nth [::] X j) (nth [::] B j)
+              & Y = left_mul RA k (size p) L X].
+Proof.
+move=> un bnd sz fs big H.
+suff [X [HX ->]] : exists X, alg_solve RA s (DPerm F p) B None = Some X /\ Y = left_mul RA k (size p) L X.
+  by have [s1 s2] := alg_solve_sound_perm un bnd sz fs big HX; exists X.
+move: H; rewrite /alg_solve /select_solve /= /solve_fn /= fs /= leqNgt big /= !run_perm /omap => -[<-].
+by eexists; split; first reflexivity; rewrite -map_drop drop_size_cat // size_mkseq.
+Qed.
+
 End Sound.
